@@ -3,6 +3,7 @@
 package checks
 
 import (
+	"strings"
 	"encoding/json"
 	"fmt"
 
@@ -35,6 +36,13 @@ func c10Scenarios(thorough bool) []c10Scenario {
 			c10Scenario{"sync over the 1000 boundary, reorg across it, clean stop" + tag, histParams{Prop: "C10", Cfg: b, Boot: "cold"},
 				[]string{"settle", "ext:1", "settle", "reorg:4:5", "settle", "restart:raw"}},
 		)
+		if rm || thorough {
+			// the start block lies above the first file boundary: the headers below it are appended by the
+			// headers handler itself (pre-start mode), including the roll-over write of the first full file
+			pre := WorldCfg{InitialChain: 1003, StartHeight: 1002, SafeDelayMS: 2000, RemoveMissing: rm}
+			out = append(out, c10Scenario{"header sync below the start block over the 1000 boundary, clean stop" + tag, histParams{Prop: "C10", Cfg: pre, Boot: "cold"},
+				[]string{"settle", "ext:1", "settle", "restart:raw"}})
+		}
 		if thorough {
 			out = append(out, c10Scenario{"reorg before the first save, back and forth" + tag, histParams{Prop: "C10", Cfg: s, Boot: "cold"},
 				[]string{"ans", "ans", "reorg:1:2", "settle", "back:1", "settle", "reorg:3:4", "settle", "restart:raw"}},
@@ -49,11 +57,13 @@ type c10Task struct {
 	Scenario c10Scenario `json:"s"`
 	Mode     string      `json:"mode"` // count | crash | fault
 	Index    int         `json:"i"`
+	Trunc    bool        `json:"trunc,omitempty"` // fault mode: leave out the scenario's final restart, so the node lives on with whatever the failed operation left in memory
 }
 
 type c10Result struct {
 	Mutations  int              `json:"mutations"`
 	Ops        int              `json:"ops"`
+	OpsTrunc   int              `json:"ops_trunc"`
 	Violations []core.Violation `json:"violations"`
 	Outcome    string           `json:"outcome"`
 	FailedOp   string           `json:"failed_op"`
@@ -127,6 +137,9 @@ func c10Exec(t c10Task) c10Result {
 	var res c10Result
 	switch t.Mode {
 	case "count":
+		wt := c10Run(truncScenario(t.Scenario), 0)
+		res.OpsTrunc = wt.Store.Ops
+		wt.Close()
 		w := c10Run(t.Scenario, 0)
 		res.Mutations, res.Ops = len(w.Store.Log), w.Store.Ops
 		w.PanicViolations("C10")
@@ -170,6 +183,9 @@ func c10Exec(t c10Task) c10Result {
 		res.Outcome = what
 		w.Close()
 	case "fault":
+		if t.Trunc {
+			t.Scenario = truncScenario(t.Scenario)
+		}
 		w := c10Run(t.Scenario, t.Index)
 		w.viol = nil
 		what := "no op failed"
@@ -205,7 +221,7 @@ func c10Exec(t c10Task) c10Result {
 			}
 		}
 		for i := range w.viol {
-			w.viol[i].Witness = map[string]interface{}{"scenario": t.Scenario, "mode": "fault", "index": t.Index, "failed_op": what}
+			w.viol[i].Witness = map[string]interface{}{"scenario": t.Scenario, "mode": "fault", "index": t.Index, "failed_op": what, "trunc": false}
 			w.viol[i].Class += " [failed " + cls + "]"
 		}
 		res.Violations = w.viol
@@ -213,6 +229,14 @@ func c10Exec(t c10Task) c10Result {
 		w.Close()
 	}
 	return res
+}
+
+// truncScenario drops a trailing restart from the scenario's history.
+func truncScenario(sc c10Scenario) c10Scenario {
+	if n := len(sc.Hist); n > 0 && strings.HasPrefix(sc.Hist[n-1], "restart") {
+		sc.Hist = append([]string(nil), sc.Hist[:n-1]...)
+	}
+	return sc
 }
 
 func keyClass(k string) string {
@@ -251,6 +275,13 @@ func init() {
 		return c10Exec(t), nil
 	})
 	All["C10"] = runC10
+	debugScenarios["C10"] = func() []histParams {
+		var out []histParams
+		for _, sc := range c10Scenarios(true) {
+			out = append(out, sc.P)
+		}
+		return out
+	}
 	Replayers["C10"] = func(wit json.RawMessage) []core.Violation {
 		var x struct {
 			Scenario c10Scenario `json:"scenario"`
@@ -258,7 +289,7 @@ func init() {
 			Index    int         `json:"index"`
 		}
 		json.Unmarshal(wit, &x)
-		return c10Exec(c10Task{x.Scenario, x.Mode, x.Index}).Violations
+		return c10Exec(c10Task{Scenario: x.Scenario, Mode: x.Mode, Index: x.Index}).Violations
 	}
 }
 
@@ -268,10 +299,11 @@ func runC10() int {
 	scs := c10Scenarios(rep.Thorough())
 	var counts []interface{}
 	for _, s := range scs {
-		counts = append(counts, c10Task{s, "count", 0})
+		counts = append(counts, c10Task{Scenario: s, Mode: "count"})
 	}
 	muts := make([]int, len(scs))
 	ops := make([]int, len(scs))
+	opsT := make([]int, len(scs))
 	pool.Map("c10", counts, func(i int, r core.TaskResult) {
 		if r.Died != "" || r.Err != "" {
 			rep.HarnessError("scenario %q: %s%s", scs[i].Name, r.Died, r.Err)
@@ -279,7 +311,7 @@ func runC10() int {
 		}
 		var res c10Result
 		json.Unmarshal(r.Res, &res)
-		muts[i], ops[i] = res.Mutations, res.Ops
+		muts[i], ops[i], opsT[i] = res.Mutations, res.Ops, res.OpsTrunc
 		for _, v := range res.Violations {
 			rep.AddViolation(v)
 		}
@@ -288,12 +320,17 @@ func runC10() int {
 	var meta []c10Task
 	for si, s := range scs {
 		for i := 0; i <= muts[si]; i++ {
-			t := c10Task{s, "crash", i}
+			t := c10Task{Scenario: s, Mode: "crash", Index: i}
 			tasks = append(tasks, t)
 			meta = append(meta, t)
 		}
 		for j := 1; j <= ops[si]; j++ {
-			t := c10Task{s, "fault", j}
+			t := c10Task{Scenario: s, Mode: "fault", Index: j}
+			tasks = append(tasks, t)
+			meta = append(meta, t)
+		}
+		for j := 1; j <= opsT[si]; j++ {
+			t := c10Task{Scenario: s, Mode: "fault", Index: j, Trunc: true}
 			tasks = append(tasks, t)
 			meta = append(meta, t)
 		}
